@@ -469,7 +469,9 @@ def observe_action(h, m, name, held):
         res = h.pack()
         raw = bytes(res)
         held.append((res, raw))
-        got, exp = (raw, int(U.L.PduHeader.header_len_from_raw(raw + TAIL))), (model_ref(m), hlen)
+        # the static helper also answers from the four octets of the fixed part alone (that is what it is for: a stream reader
+        # learns how many octets the header has before it has them)
+        got, exp = (raw, int(U.L.PduHeader.header_len_from_raw(raw + TAIL)), int(U.L.PduHeader.header_len_from_raw(raw[:4]))), (model_ref(m), hlen, hlen)
     return None if got == exp else (got, exp)
 
 
